@@ -283,6 +283,11 @@ impl TransactionContext {
             .with_pager(self.pager().clone())
     }
 
+    /// True while the transaction has been neither committed nor aborted.
+    pub(crate) fn is_open(&self) -> bool {
+        self.handle.read().can_commit()
+    }
+
     /// Commits the transaction: log commit, commit handle, end.
     pub(crate) fn commit_transaction(&self) -> RuntimeResult<()> {
         let mut h = self.handle.write();
